@@ -164,6 +164,12 @@ def long_token_cases(rng, n_garble):
             if j:
                 out.append((f'truncate line {i + 1} after token {j - 1}', '\n'.join(lines[:i] + [' '.join(toks[:j])] + lines[i + 1:])))
                 out.append((f'drop the comma of token {j - 1} of line {i + 1}', '\n'.join(lines[:i] + [' '.join(toks[:j - 1] + [toks[j - 1].rstrip(',')] + toks[j:])] + lines[i + 1:])))
+                # a run of 44 blanks (column-aligned source), alone and in front of a character no statement can contain
+                wide = ' '.join(toks[:j]) + ' ' * 44
+                out.append((f'widen the blank in front of token {j} of line {i + 1} to 44 blanks', '\n'.join(lines[:i] + [wide + ' '.join(toks[j:])] + lines[i + 1:])))
+                for junk in ('@', '?', '"', '`'):
+                    out.append((f'44 blanks and {junk!r} in front of token {j} of line {i + 1}', '\n'.join(lines[:i] + [wide + junk + ' ' + ' '.join(toks[j:])] + lines[i + 1:])))
+                    out.append((f'44 blanks and {junk!r} behind token {j} of line {i + 1}', '\n'.join(lines[:i] + [' '.join(toks[:j + 1]) + ' ' * 44 + junk + ''.join(' ' + t for t in toks[j + 1:])] + lines[i + 1:])))
         if ln:
             for junk in ('"', ']', '=', '?', ' "x', ',', ' ,', ':'):
                 out.append((f'append {junk!r} to line {i + 1}', '\n'.join(lines[:i] + [ln + junk] + lines[i + 1:])))
@@ -207,7 +213,7 @@ def run(chk):
                 'exit status). (c) seeded corruptions (dropped / duplicated / garbled tokens and lines, swapped lines, '
                 'truncations, zero-length directives, junk lines) of rendered and repository programs: every observation trace '
                 'must be accepted. (d) fatal injections (unresolvable label, unknown instruction, statement no variant accepts, '
-                'value its field cannot hold; references to file-scope and local names across #include boundaries in multi-file programs) into accepted programs must never end in exit_ok. (e) a program whose identifiers are 46 characters long and whose numbers have 28 digits, with every single token dropped / doubled, every line truncated after each token, every comma dropped, junk appended to every line, plus seeded corruptions: every run must terminate (a pattern matcher whose work doubles per character does not) and be accepted by Trace_Outcome.tla. '
+                'value its field cannot hold; references to file-scope and local names across #include boundaries in multi-file programs) into accepted programs must never end in exit_ok. (e) a program whose identifiers are 46 characters long and whose numbers have 28 digits, with every single token dropped / doubled, every line truncated after each token, every comma dropped, junk appended to every line, every blank widened to a run of 44 blanks alone and next to a character no statement can contain, plus seeded corruptions: every run must terminate (a pattern matcher whose work doubles per character does not) and be accepted by Trace_Outcome.tla. '
                 'Non-trivial = distinct (program text, format) whose run exercised a rejection or a zero-length line.')
     chk.assumptions = ['termination is observed with a 10 s watchdog (programs assemble in milliseconds)',
                        'no oracle on whether corrupted text is accepted - only the implications of the statement',
